@@ -33,10 +33,13 @@ from harness.props import dev_ctl
 from harness.props import devx_util as X
 
 PROP = "C57"
-LEAN_MODULES = ["LunaVerif.Props.C57"]
+LEAN_MODULES = ["LunaVerif.Props.C57", "LunaVerif.Lemmas.C57Ghost", "LunaVerif.Lemmas.C57Rx", "LunaVerif.Lemmas.C57Tx",
+                "LunaVerif.Props.C57Streams"]
 DRIVER = "Driver/C57.lean"
 REQUIRED_THEOREMS = ["acm_enumerates", "set_line_coding_accepted", "other_class_vendor_stalled", "vendor_reserved_stalled",
-                     "unsupported_request_stalled", "rx_in_order_partial", "tx_in_order_partial"]
+                     "unsupported_request_stalled", "rx_in_order_partial", "tx_in_order_partial",
+                     "rx_in_order", "rx_delivered_prefix", "tx_in_order", "tx_kept_prefix", "tx_exactly_once",
+                     "halt_clear_is_clear_feature"]
 RULE = ("cases = (a) 'matrix' sessions: ONE request matrix per run, cut into 4 (quick) / 48 (thorough) sessions = the FULL "
         "cross request type (standard / class / vendor / reserved) x recipient (device / interface / endpoint / other / a "
         "reserved one) x direction x data stage (none / wLength 7 / another wLength) for every bRequest that ACMRequestHandlers implements (its "
@@ -54,15 +57,27 @@ RULE = ("cases = (a) 'matrix' sessions: ONE request matrix per run, cut into 4 (
         "other devices' transactions in between), polls of the never-fed endpoint 3, SOF, malformed packets; "
         "'overflow' cases keep the rx consumer stalled while the host fills the FIFO and keeps writing")
 ASSUMPTIONS = dev_ctl.ASSUMPTIONS + [
-    "stream events happen between transactions; tx `first` is not used by the endpoint; no CLEAR_FEATURE(ENDPOINT_HALT) "
-    "in the rx/tx order theorems (it resets the data toggles by design)",
+    "stream events happen between transactions; tx `first` is not used by the endpoint",
+    "rx_in_order: no assumption on the event history (every history of the whole-device model from reset, legal or not)",
+    "tx_in_order: HostAcksWhatItGot - a handshake ACK that reaches the device while its token detector shows the IN "
+    "token of endpoint 4 follows directly on a DATA answer that the host received intact (the host's reception is an "
+    "annotation `got` of the IN-token events; the device-side event history cannot tell); the host applies the toggle "
+    "rule, restarts with DATA0 when the ACK of a CLEAR_FEATURE(ENDPOINT_HALT) status stage for IN 4 reaches the device, "
+    "and keeps its toggles across a bus reset (the gateware keeps the endpoints' toggles and buffers across it)",
+    "operation-level theorems rx_in_order_partial / tx_in_order_partial: no CLEAR_FEATURE(ENDPOINT_HALT) in between",
 ]
-PARTIAL = ("rx_in_order / tx_in_order are proved on the operations of the event-level endpoint models (tied to the real "
-           "device event by event), for every interleaving of host packets / polls, lost packets and handshakes, "
-           "overflowing packets and application reads / writes, but not across CLEAR_FEATURE(ENDPOINT_HALT), which "
-           "re-synchronises the toggles by design, and not lifted to a statement about whole-device histories. "
-           "acm_enumerates is proved for the default descriptor set regenerated from create_descriptors on every run "
-           "and for every address; the refinement from cycles to events is by co-simulation only.")
+PARTIAL = ("rx_in_order / tx_in_order are now proved for EVERY event history of the whole-device model (control "
+           "transfers incl. CLEAR_FEATURE(ENDPOINT_HALT) for any endpoint, bus resets, other endpoints' and devices' "
+           "traffic, lost / corrupted packets and handshakes, back-pressure), with what a halt-clear does stated as "
+           "coded: OUT 4 - expected toggle back to DATA0, buffered bytes stay; IN 4 - both sides restart with DATA0, "
+           "buffered bytes stay, and a packet the host had accepted whose ACK the device has not seen is delivered a "
+           "second time (logged in `redone`, at most one per such halt-clear; tx_exactly_once when there is none). "
+           "Remaining: the host's reception of tx packets is an annotation of the history (HostAcksWhatItGot) rather than "
+           "derived from a model of the bus; the rx statement is about packets the DEVICE ACKed with a fresh toggle (the "
+           "host-side bookkeeping 'seen ACKed / still to retransmit' is only in rx_in_order_partial, on endpoint "
+           "operations without halt-clear). acm_enumerates is proved for the default descriptor set regenerated from "
+           "create_descriptors on every run and for every address; the refinement from cycles to events is by "
+           "co-simulation only.")
 
 S, I, O, P = U.PID_SETUP, U.PID_IN, U.PID_OUT, U.PID_PING
 D0, D1 = U.PID_DATA0, U.PID_DATA1
@@ -154,6 +169,10 @@ class SerialHost(X.FullHost):
         self.idle_ep = [e for e in spec["eps"] if e[0] == "in" and e[1] == 3][0]
         self.stream_in = [self.tx_ep]          # endpoint 3's stream is never driven
         self.in_eps = [4]
+
+    def foreign(self, k=None):
+        # dev_ctl.Host.maybe_foreign may name the kind of traffic it prefers; FullHost chooses for itself
+        return super().foreign()
 
     def desc_bytes(self, t, i):
         for dt, di, b in self.spec["desc"]:
